@@ -234,6 +234,20 @@ class StreamMonitor:
             self.v("streaming differs from compute_full at frame/coeff %r of %d frames: %s (N=%d, chunks %r, %s fl=%d fs=%d %s%s)" % (
                 i, want.shape[0], detail, N, comp_lens[:20], info["kind"], fl, fs, info["style"], " kaldi" if info["kaldi"] else ""), check="value",
                 frame=None if i is None else i[0], n_frames=int(want.shape[0]), **info)
+        if ok and is_stft and x.dtype == np.float64 and want.shape[0]:
+            # an STFT frame is a function of its own samples, however they arrived: each frame agrees to rounding at its own level,
+            # whatever the level of the rest of the recording (the matrix-wide scale above would hide a quiet frame next to loud ones)
+            g64, w64 = got.astype(np.float64), np.asarray(want, dtype=np.float64)
+            if a.get("use_log"):
+                g64, w64 = np.exp(g64), np.exp(w64)
+            row = np.maximum(np.max(np.abs(w64), axis=1, keepdims=True), config.LOG_FLOOR_VALUE if a.get("use_log") else 0.0)
+            bad = np.abs(g64 - w64) > 1e-8 * row + 1e-290
+            self.rec.count("stft_frames_compared_at_their_own_level", int(want.shape[0]))
+            if np.any(bad):
+                k = tuple(int(v) for v in np.argwhere(bad)[0])
+                self.v("streaming differs from compute_full at frame/coeff %r relative to that frame's own level: got %r want %r (N=%d, chunks %r, stft fl=%d fs=%d %s%s)" % (
+                    k, float(got[k]), float(want[k]), N, comp_lens[:20], fl, fs, info["style"], " kaldi" if info["kaldi"] else ""), check="value", frame=k[0],
+                    n_frames=int(want.shape[0]), **info)
         nonempty = sum(1 for n in comp_lens if n)
         if want.shape[0] >= 1 and nonempty >= 2:
             self.rec.nt((repr(self.case.get("cfg") if self.case else None), N, tuple(comp_lens), str(x.dtype)))
@@ -358,9 +372,13 @@ def run_case(case, rec, mon=None):
         else:
             Ls = boundary_lengths(rng, comp, width)
             pick = list(rng.choice(Ls, size=min(case["n_lengths"], len(Ls)), replace=False))
-            for N in pick:
+            for jn, N in enumerate(pick):
                 dt = np.float32 if rng.random() < 0.15 else np.float64
                 x = gen.signal(rng, int(N), None, dt, views=True)
+                if case["idx"] % 4 == 1 and jn == int(np.argmax(pick)):
+                    # 120 dB of dynamic range within one recording (a loud passage, a click), also within one chunk
+                    x = gen.signal(rng, int(N), ("loud_then_quiet", "quiet_then_loud", "click")[(case["idx"] // 4) % 3], np.float64)
+                    rec.count("recordings_with_120dB_dynamic_range")
                 x.setflags(write=False)
                 for j in range(case["n_comps"]):
                     parts = gen.composition(rng, int(N))
@@ -378,6 +396,18 @@ def run_case(case, rec, mon=None):
                             comp.finalize()
                         except Exception:
                             pass
+            if isinstance(comp, C.ShortTimeFourierTransformFrameComputer) and case["idx"] % 3 == 0:
+                # directed: the same configuration with the energy coefficient, on a recording with 120 dB of dynamic range, streamed
+                # in chunks of many frames (the level changes inside a chunk)
+                try:
+                    ce = gen.build(dict(cfg, include_energy=True))
+                    xd = gen.signal(rng, 12 * int(ce.frame_length) + 7, ("loud_then_quiet", "click", "quiet_then_loud")[(case["idx"] // 3) % 3], np.float64)
+                    xd.setflags(write=False)
+                    for parts in ([len(xd)], [len(xd) // 2 + 3, len(xd) - len(xd) // 2 - 3], [5 * int(ce.frame_length), len(xd) - 5 * int(ce.frame_length)]):
+                        stream(ce, xd, parts)
+                    rec.count("streams_of_many_frame_chunks_over_120dB_of_dynamic_range")
+                except Exception as e:
+                    rec.note("dynamic-range stream raised %r" % (e,))
             # always: a refused (integer) chunk before and in the middle of an ordinary utterance
             x = gen.signal(rng, int(comp.frame_length + 2 * comp.frame_shift + 3), "noise")
             x.setflags(write=False)
